@@ -86,6 +86,30 @@ func genC04(kind string) func(r *core.Rng) any {
 					c.W = 0.8 * rm
 				}
 			}
+		case "closed-compound":
+			// two or three closed contours with independent orientations in one path: side by side, or a
+			// shape with a hole in it
+			rad := r.Range(10, 30)
+			p = &canvas.Path{}
+			cx, cy := r.Range(-20, 20), r.Range(-20, 20)
+			fams := []int{0, 1, 2, 4}
+			if r.Bool() { // hole: the inner radius of every family is at least 0.3*rad
+				p = p.Append(simpleClosedShapeK(r, cx, cy, rad, r.Bool(), core.PickI(r, fams)))
+				p = p.Append(simpleClosedShapeK(r, cx, cy, rad*0.12, r.Bool(), core.PickI(r, []int{1, 2})))
+			} else {
+				for k, n := 0, r.IntRange(2, 3); k < n; k++ {
+					p = p.Append(simpleClosedShapeK(r, cx+float64(k)*rad*5, cy+r.Range(-5, 5), rad, r.Bool(), core.PickI(r, fams)))
+				}
+			}
+			if r.Bool() {
+				c.Cap, c.Join = 1, 1
+			}
+			c.W = rad * r.LogRange(0.01, 0.1)
+			if subs, err := refSubs(p); err == nil {
+				if rm := minCurvatureRadius(subs); c.W > 0.4*rm {
+					c.W = 0.4 * rm
+				}
+			}
 		case "closed-cornered":
 			// lens / teardrop / bulged polygon: the edges of a convex polygon replaced by outward quads or
 			// cubics; corners at every vertex, the path starts at one and the last curve lands exactly on it
@@ -567,6 +591,7 @@ func init() {
 			{Name: "closed-circles", Quick: 400, Thorough: 3000, Gen: genC04("closed-circles")},
 			{Name: "closed-roundrects", Quick: 400, Thorough: 3000, Gen: genC04("closed-roundrects")},
 			{Name: "closed-quadchains", Quick: 400, Thorough: 3000, Gen: genC04("closed-quadchains")},
+			{Name: "closed-compound", Quick: 400, Thorough: 4000, Gen: genC04("closed-compound"), Note: "several closed contours of independent orientation in one path (side by side, or a hole)"},
 			{Name: "closed-cornered", Quick: 500, Thorough: 4000, Gen: genC04("closed-cornered"), Note: "closed contours of outward curves meeting at corners, starting at a corner with a zero-length Close"},
 			{Name: "offset-polygons", Quick: 500, Thorough: 4000, Gen: genC04("offset-polygons")},
 			{Name: "offset-curved", Quick: 500, Thorough: 4000, Gen: genC04("offset-curved")},
